@@ -9,6 +9,7 @@
 
 pub mod case;
 pub mod gen;
+pub mod kdsim;
 pub mod oracle;
 
 pub use case::{case_from_bytes, Case, Metric, PointClass, Query, QueryClass, Radius};
@@ -30,6 +31,7 @@ fn index_strategy(t: Tier) -> BoxedStrategy<Case> {
 }
 
 pub fn property() -> Property {
+    kdsim::enable_probe(true);
     Property {
         id: "C07",
         rule: "case = (f32|f64, metric L1/L2/Linf/Lp(1,1.5,2,3), point set of class lattice/all-equal/duplicates/clustered/uniform/collinear/rough \
@@ -55,6 +57,18 @@ pub fn property() -> Property {
             prop_sub("malformed", 6000, 60000, |_t: Tier| gen::case_strategy(12, Malformed::Always), check_case)
                 .chunks(4)
                 .require(&["malformed_zero_dim", "malformed_zero_leaf", "malformed_query_dimension"]),
+            prop_sub("adjacent_floats", 1500, 20000, |_t: Tier| gen::adjacent_strategy(), check_case)
+                .chunks(8)
+                .require(&["kd_degenerate_split_predicted"]),
+            // the byte decoder a coverage-guided target will use, driven by random bytes: same oracle
+            prop_sub(
+                "bytes",
+                20000,
+                200000,
+                |_t: Tier| proptest::collection::vec(any::<u8>(), 6..260).prop_filter_map("header too short", |b| case_from_bytes(&b)),
+                check_case,
+            )
+            .chunks(4),
             prop_sub("distance", 40000, 400000, |_t: Tier| gen::dist_case_strategy(), check_distance).chunks(4),
         ],
     }
